@@ -73,3 +73,36 @@ package api
 //@   loop 0: invariant same(buf, self.s) && self.i <= pos && pos <= len(buf)
 //@   loop 0: invariant forall k int :: self.i <= k && k < pos ==> isSpace(buf[k])
 //@   loop 0: decreases len(buf) - pos
+
+// ---- StreamDecoder (C17): the buffer always holds exactly the not yet consumed
+// bytes the Reader has delivered, in order: no byte is lost, duplicated or
+// reordered however the Reader chunks them.
+//@ axiom bufpool_elems: forall x any :: sync.poolElem(addr(bufPool), x) ==> (x != nil && dyntype(x) == typeid(ByteSlice) && len(cast(ByteSlice, x)) == 0 && cap(cast(ByteSlice, x)) > 0)
+//@ pure func sdOK(s *StreamDecoder) bool = s != nil && 0 <= s.scanp && s.scanp <= len(s.buf) && s.scanned >= 0 && s.scanned <= 4611686018427387904
+//@ pure func sdSync(s *StreamDecoder) bool = int(s.scanned) + len(s.buf) == $rpos && (forall k int :: 0 <= k && k < len(s.buf) ==> s.buf[k] == $rin[int(s.scanned) + k])
+
+//@ func (*StreamDecoder).scan props C17
+//@   requires sdOK(self)
+//@   modifies self.scanp
+//@   ensures r1 ==> (self.scanp == old(self.scanp) && (forall k int :: old(self.scanp) <= k && k < len(self.buf) ==> isSpace(self.buf[k])))
+//@   ensures !r1 ==> (old(self.scanp) <= self.scanp && self.scanp < len(self.buf) && r0 == self.buf[self.scanp] && !isSpace(r0) && (forall k int :: old(self.scanp) <= k && k < self.scanp ==> isSpace(self.buf[k])))
+//@   loop 0: invariant self.scanp == old(self.scanp) && self.scanp <= i && i <= len(self.buf)
+//@   loop 0: invariant forall k int :: self.scanp <= k && k < i ==> isSpace(self.buf[k])
+//@   loop 0: decreases len(self.buf) - i
+
+// realloc: contents and length are kept, and afterwards there is room to read at least one byte.
+// (minLeftBufferShift is a package variable that is only initialised, to 1)
+//@ func realloc props C17
+//@   requires buf != nil && minLeftBufferShift == 1 && cap(*buf) <= 1152921504606846976
+//@   modifies *buf
+//@   ensures len(*buf) == old(len(*buf)) && cap(*buf) > len(*buf)
+//@   ensures forall k int :: 0 <= k && k < len(*buf) ==> (*buf)[k] == old((*buf)[k])
+//@   ensures base(*buf) == old(base(*buf)) || fresh(*buf)
+//@   ensures base(*buf) == old(base(*buf)) ==> same(*buf, old(*buf))
+
+//@ func freeBytes props C17,C06
+
+//@ func (*StreamDecoder).setErr props C17
+//@   requires self != nil
+//@   modifies self.err, self.buf
+//@   ensures self.err == err && self.buf == nil
